@@ -3,6 +3,7 @@ package props
 import (
 	"encoding/json"
 	"fmt"
+	"math/big"
 	"sort"
 	"strconv"
 	"strings"
@@ -26,11 +27,19 @@ import (
 
 // C03 — INSERT / REPLACE on sharded and global tables (proxy/plan/plan_insert.go).
 //
-// Line: (ins RULE SHARDCOL SEQ STMT)
+// Line: (ins RULE SHARDCOL SEQ STMT TYPE (fti (KEY PLACE)…))
 //   RULE  (rule ks|mycat|global DB (slices…) (idxs…) (t2s (idx slice)…) (dbs…))   the layout the real rule reports
 //   SEQ   n | (seq PK START FAILAT|n (PLACE…))        PLACE = FindTableIndex(START+n): <int> | e | p
-//   STMT  (stmt (x RULENAME SQLHEX) HASSELECT SETMODE (cols…) (rows (CELL…)…) (ondup…) SCHEMA TABLE)
-//   CELL  (l TXTHEX PLACE) | n | nv | (x TXTHEX)       as /repo's parser delivers the cell
+//   STMT  (stmt (x RULENAME SQLHEX FLAGS) HASSELECT SETMODE (cols…) (rows (CELL…)…) (ondup…) SCHEMA TABLE)
+//         FLAGS r<t|f>i<t|f>p<n>d<n>: REPLACE, IGNORE, priority, number of ON DUPLICATE KEY UPDATE assignments
+//   CELL  (l TXTHEX PLACE VAL) | n | nv | (x TXTHEX)   as /repo's parser delivers the cell
+//   VAL   (i N) Int64 | (u N) Uint64 | (s HEX) string/bytes | (o KIND) any other kind of literal (hex, bit, decimal, float)
+//   TYPE  rule.GetType() (hash, mod, range, date_year, …, mycat_murmur, global)
+//   fti   FindTableIndex of the real rule on the values a backend column holds for the sharding literals written
+//         another way: KEY (i N) int64 | (u N) uint64 | (s HEX) string. For the integer literal n the string of its
+//         decimal digits (a string column stores it so), for a string literal that MySQL reads as an integer n
+//         (white space, sign, digits, white space) the number n (an integer column stores it so); the same for the
+//         values of the global sequence. The Lean oracle computes these keys itself and looks their placement up here.
 // Exec only reads RULENAME, SQLHEX and SEQ; everything else is what the parser
 // and the real rule report about the statement at generation time (the model
 // is parametric in them, as the routing model of C01 is).
@@ -61,6 +70,8 @@ var insRules = []insRule{
 	{name: "mlong", db: "db_mycat", table: "t_mlong", key: "k", shard: `{"db":"db_mycat","table":"t_mlong","type":"mycat_long","key":"k","locations":[1,3],"slices":["slice-2","slice-1"],"databases":["db_mycat_[0-3]"],"partition_count":"4","partition_length":"256"}`},
 	{name: "mmur", db: "db_mycat", table: "t_mmur", key: "k", shard: `{"db":"db_mycat","table":"t_mmur","type":"mycat_murmur","key":"k","locations":[2,2],"slices":["slice-0","slice-1"],"databases":["db_mycat_0","db_mycat_1","db_mycat_2","db_mycat_3"],"seed":"0","virtual_bucket_times":"160"}`},
 	{name: "mstr", db: "db_mycat", table: "t_mstr", key: "k", shard: `{"db":"db_mycat","table":"t_mstr","type":"mycat_string","key":"k","locations":[2,2],"slices":["slice-0","slice-1"],"databases":["db_mycat_[0-3]"],"partition_count":"4","partition_length":"256","hash_slice":"20"}`},
+	{name: "mpad", db: "db_mycat", table: "t_mpad", key: "k", shard: `{"db":"db_mycat","table":"t_mpad","type":"mycat_padding_mod","key":"k","locations":[2,2],"slices":["slice-0","slice-1"],"databases":["db_mycat_[0-3]"],"pad_from":"0","pad_length":"6","mod_begin":"3","mod_end":"6"}`},
+	{name: "lkh", db: "db_ks", table: "t_h4_child", key: "pk", shard: `{"db":"db_ks","table":"t_h4_child","type":"linked","key":"pk","parent_table":"t_h4"}`},
 	{name: "gks", db: "db_ks", table: "t_gks", key: "k", global: true, shard: `{"db":"db_ks","table":"t_gks","type":"global","locations":[2,2],"slices":["slice-0","slice-1"]}`},
 	{name: "gmy", db: "db_mycat", table: "t_gmy", key: "k", global: true, shard: `{"db":"db_mycat","table":"t_gmy","type":"global","locations":[1,2],"slices":["slice-2","slice-0"],"databases":["db_mycat_[0-2]"]}`},
 }
@@ -187,17 +198,79 @@ func insPlace(rule router.Rule, key interface{}) (s core.Sexp) {
 	return core.I(int64(idx))
 }
 
+// insLitVal renders the value of a literal as the parser delivers it.
+func insLitVal(x *driver.ValueExpr) (core.Sexp, string) {
+	switch x.Kind() {
+	case types.KindInt64:
+		return core.L(core.A("i"), core.I(x.GetInt64())), "int"
+	case types.KindUint64:
+		return core.L(core.A("u"), core.A(strconv.FormatUint(x.GetUint64(), 10))), "uint"
+	case types.KindString, types.KindBytes:
+		return core.L(core.A("s"), core.Text(x.GetString())), "str"
+	}
+	return core.L(core.A("o"), core.I(int64(x.Kind()))), fmt.Sprintf("kind%d", x.Kind())
+}
+
+// insMySQLInt is the integer MySQL reads from a string stored in an integer
+// column when the string has the syntax of an integer: white space, an
+// optional sign, digits, white space (strict mode accepts it without a
+// warning). ok=false: another syntax (not modelled: fractions and exponents
+// are rounded, anything else is refused in strict mode).
+func insMySQLInt(s string) (*big.Int, bool) {
+	t := strings.Trim(s, " \t\n\v\f\r")
+	d := t
+	if d != "" && (d[0] == '+' || d[0] == '-') {
+		d = d[1:]
+	}
+	if d == "" {
+		return nil, false
+	}
+	for i := 0; i < len(d); i++ {
+		if d[i] < '0' || d[i] > '9' {
+			return nil, false
+		}
+	}
+	n, ok := new(big.Int).SetString(t, 10)
+	return n, ok
+}
+
+// insAltKeys: the values a backend column holds for the literal when it is
+// not of the literal's own type (see the comment on the line format).
+func insAltKeys(x *driver.ValueExpr) (keys []core.Sexp, vals []interface{}) {
+	switch x.Kind() {
+	case types.KindInt64:
+		t := strconv.FormatInt(x.GetInt64(), 10)
+		return []core.Sexp{core.L(core.A("s"), core.Text(t))}, []interface{}{t}
+	case types.KindUint64:
+		t := strconv.FormatUint(x.GetUint64(), 10)
+		return []core.Sexp{core.L(core.A("s"), core.Text(t))}, []interface{}{t}
+	case types.KindString, types.KindBytes:
+		n, ok := insMySQLInt(x.GetString())
+		if !ok {
+			return nil, nil
+		}
+		if n.IsInt64() {
+			return []core.Sexp{core.L(core.A("i"), core.I(n.Int64()))}, []interface{}{n.Int64()}
+		}
+		if n.IsUint64() {
+			return []core.Sexp{core.L(core.A("u"), core.A(n.String()))}, []interface{}{n.Uint64()}
+		}
+	}
+	return nil, nil
+}
+
 func insCell(rule router.Rule, e ast.ExprNode) (core.Sexp, string) {
 	switch x := e.(type) {
 	case *driver.ValueExpr:
 		if x.Kind() == types.KindNull {
 			return core.A("n"), "null"
 		}
+		val, kind := insLitVal(x)
 		v, err := util.GetValueExprResult(x)
 		if err != nil {
-			return core.L(core.A("l"), core.Text(insRestore(e)), core.A("e")), "lit"
+			return core.L(core.A("l"), core.Text(insRestore(e)), core.A("e"), val), kind
 		}
-		return core.L(core.A("l"), core.Text(insRestore(e)), insPlace(rule, v)), "lit"
+		return core.L(core.A("l"), core.Text(insRestore(e)), insPlace(rule, v), val), kind
 	case *ast.FuncCallExpr:
 		if x.FnName.L == "nextval" {
 			return core.A("nv"), "nextval"
@@ -211,6 +284,21 @@ type insSeq struct {
 	start  int64
 	failAt int // -1: never
 	n      int
+}
+
+// InsSeq makes the sequence description InsLine takes (failAt -1: never fails).
+func InsSeq(pk string, start int64, failAt int) *insSeq {
+	return &insSeq{pk: pk, start: start, failAt: failAt}
+}
+
+// InsExec runs the real planner on a line (for harness/cmd/c03line).
+func InsExec(in core.Sexp) (out string) {
+	defer func() {
+		if e := recover(); e != nil {
+			out = "panic"
+		}
+	}()
+	return execC03(in)
 }
 
 func (s *insSeq) GetPKName() string { return s.pk }
@@ -258,11 +346,28 @@ func InsLine(ruleName, sql string, seq *insSeq) (core.Sexp, []string, bool) {
 			}
 		}
 	}
+	// FindTableIndex on the other spellings of the sharding literals
+	var fti []core.Sexp
+	ftiSeen := map[string]bool{}
+	ftiAdd := func(keys []core.Sexp, vals []interface{}) {
+		for i, k := range keys {
+			if ks := k.String(); !ftiSeen[ks] {
+				ftiSeen[ks] = true
+				fti = append(fti, core.L(k, insPlace(rule, vals[i])))
+			}
+		}
+	}
+	ftiCell := func(col string, e ast.ExprNode) {
+		if x, ok := e.(*driver.ValueExpr); ok && col == rule.GetShardingColumn() {
+			ftiAdd(insAltKeys(x))
+		}
+	}
 	if setMode {
 		var cells []core.Sexp
 		var kinds []string
 		for _, a := range stmt.Setlist {
 			cols = append(cols, a.Column.Name.L)
+			ftiCell(a.Column.Name.L, a.Expr)
 			c, k := insCell(rule, a.Expr)
 			cells = append(cells, c)
 			kinds = append(kinds, k)
@@ -276,7 +381,10 @@ func InsLine(ruleName, sql string, seq *insSeq) (core.Sexp, []string, bool) {
 		for _, l := range stmt.Lists {
 			var cells []core.Sexp
 			var kinds []string
-			for _, e := range l {
+			for j, e := range l {
+				if j < len(cols) {
+					ftiCell(cols[j], e)
+				}
 				c, k := insCell(rule, e)
 				cells = append(cells, c)
 				kinds = append(kinds, k)
@@ -302,6 +410,10 @@ func InsLine(ruleName, sql string, seq *insSeq) (core.Sexp, []string, bool) {
 		var places []core.Sexp
 		for i := 0; i <= len(rows); i++ {
 			places = append(places, insPlace(rule, seq.start+int64(i)))
+			if seq.pk == rule.GetShardingColumn() {
+				t := strconv.FormatInt(seq.start+int64(i), 10)
+				ftiAdd([]core.Sexp{core.L(core.A("s"), core.Text(t))}, []interface{}{t})
+			}
 		}
 		fa := core.A("n")
 		if seq.failAt >= 0 {
@@ -321,8 +433,9 @@ func InsLine(ruleName, sql string, seq *insSeq) (core.Sexp, []string, bool) {
 		tags = append(tags, "shardcell="+strings.TrimPrefix(k, "*ast."))
 	}
 	in := core.L(core.A("ins"), insLayout(rule), insIdent(rule.GetShardingColumn()), seqS,
-		core.L(core.A("stmt"), core.L(core.A("x"), core.A(ruleName), core.Text(sql)), core.B(stmt.Select != nil), core.B(setMode),
-			insIdents(cols), core.L(rows...), insIdents(ondup), insIdent(schema), insIdent(table)))
+		core.L(core.A("stmt"), core.L(core.A("x"), core.A(ruleName), core.Text(sql), core.A(insFlags(stmt))), core.B(stmt.Select != nil), core.B(setMode),
+			insIdents(cols), core.L(rows...), insIdents(ondup), insIdent(schema), insIdent(table)),
+		core.A(rule.GetType()), core.L(append([]core.Sexp{core.A("fti")}, fti...)...))
 	return in, tags, true
 }
 
@@ -384,6 +497,25 @@ func insShardLits(g *core.Gen, r *insRule) string {
 
 // sharding values the proxy does not evaluate, or evaluates to something unroutable
 var insBadShardCells = []string{"-5", "2+1", "abs(-3)", "NULL", "1.5e0", "1.5", "a", "nextval()", "'abc'", "-1", "(7)", "now()", "DEFAULT", "1 = 1", "NOT 1", "b'101'", "0x1F", "TRUE", "''"}
+
+// literals of other kinds and strings MySQL reads as numbers: the value the column
+// holds is not the value GetValueExprResult gives for them
+var insOddShardCells = []string{"'007'", "' 7'", "'7 '", "'+7'", "'-7'", "'7.0'", "'1e1'", "'.5'", "'7.'", "0x10", "x'10'", "X'0A'", "b'101'", "0b11", "1.5", "7.0", "1e1",
+	"TRUE", "FALSE", "_utf8'7'", "N'12'", "'12' '3'", "'\\t7'", "'7\\n'", "' 0012 '", "'18446744073709551615'", "'9223372036854775808'", "'-9223372036854775808'",
+	"'99999999999999999999'", "'+'", "'-'", "' '", "'7e'", "'e7'", "'0x10'", "'1 2'", "'- 7'", "'++7'", "'7e+'", "'7E-2'", "'\\07'", "'٧'",
+	"' 2016-01-01'", "'2016-01-01 '", "'20160101'", "'2016-1-1'", "2016.5", "20160101", "'201512'", "'151231'"}
+
+// insRespell writes a routable literal another way: the same number for MySQL
+func insRespell(g *core.Gen, lit string) string {
+	if strings.HasPrefix(lit, "'") {
+		body := strings.Trim(lit, "'")
+		return core.Pick(g, []string{"' " + body + "'", "'" + body + " '", "'00" + body + "'", "'+" + body + "'", "'" + body + ".0'", "'\\t" + body + "'", "_utf8'" + body + "'"})
+	}
+	if n, err := strconv.ParseUint(lit, 10, 64); err == nil {
+		return core.Pick(g, []string{"'00" + lit + "'", "' " + lit + "'", "'" + lit + " '", "'+" + lit + "'", "'" + lit + ".0'", lit + ".0", fmt.Sprintf("0x%X", n), "00" + lit, "'" + lit + "e0'", "'-" + lit + "'", lit + "e0"})
+	}
+	return lit
+}
 
 var insOtherCells = []string{"1", "2", "'x'", "NULL", "-7", "3+4", "now()", "'it''s'", "0", "1.25", "'a,b'", "'(1),(2)'"}
 
@@ -447,15 +579,25 @@ func genC03(g *core.Gen) {
 			}
 		}
 		badRate := core.Pick(g, []int{0, 0, 0, 0, 10, 10, 4, 2}) // one in badRate sharding cells is not a routable literal
+		oddRate := core.Pick(g, []int{0, 0, 0, 8, 4, 2, 1})       // one in oddRate is a literal written another way
+		odd := false
 		var rows [][]string
 		for j := 0; j < nrows; j++ {
 			var cells []string
 			for _, c := range cols {
 				switch {
 				case strings.EqualFold(c, r.key):
-					if badRate > 0 && g.Intn(badRate) == 0 {
+					switch {
+					case badRate > 0 && g.Intn(badRate) == 0:
 						cells = append(cells, core.Pick(g, insBadShardCells))
-					} else {
+					case oddRate > 0 && g.Intn(oddRate) == 0:
+						if g.Intn(2) == 0 {
+							cells = append(cells, core.Pick(g, insOddShardCells))
+						} else {
+							cells = append(cells, insRespell(g, insShardLits(g, r)))
+						}
+						odd = true
+					default:
 						cells = append(cells, insShardLits(g, r))
 					}
 				case c == "sid":
@@ -494,14 +636,19 @@ func genC03(g *core.Gen) {
 		colSQL := make([]string, len(cols))
 		for j, c := range cols {
 			colSQL[j] = c
-			switch g.Intn(12) {
+			switch g.Intn(14) {
 			case 0:
 				colSQL[j] = r.table + "." + c
 			case 1:
 				colSQL[j] = r.db + "." + r.table + "." + c
+			case 2:
+				colSQL[j] = "`" + c + "`"
+			case 3:
+				colSQL[j] = "`" + r.table + "`.`" + strings.ToUpper(c) + "`"
 			}
 		}
-		verb := core.Pick(g, []string{"INSERT INTO", "INSERT INTO", "INSERT INTO", "REPLACE INTO", "INSERT IGNORE INTO"})
+		verb := core.Pick(g, []string{"INSERT INTO", "INSERT INTO", "INSERT INTO", "REPLACE INTO", "INSERT IGNORE INTO", "REPLACE", "INSERT", "INSERT LOW_PRIORITY IGNORE INTO",
+			"INSERT HIGH_PRIORITY INTO", "REPLACE LOW_PRIORITY INTO", "INSERT DELAYED INTO", "insert into", "replace into"})
 		var sql string
 		if mode == "set" {
 			var as []string
@@ -522,9 +669,10 @@ func genC03(g *core.Gen) {
 				colList = ""
 				shape = "no-collist"
 			}
-			sql = verb + " " + tbl + colList + " VALUES " + strings.Join(rs, ",")
-			if g.Intn(80) == 0 {
-				sql = verb + " " + tbl + colList + " SELECT 1,2"
+			sql = verb + " " + tbl + colList + " " + core.Pick(g, []string{"VALUES", "VALUES", "VALUES", "VALUE", "values"}) + " " + strings.Join(rs, ",")
+			if g.Intn(60) == 0 {
+				sql = verb + " " + tbl + colList + " " + core.Pick(g, []string{"SELECT 1,2", "SELECT " + r.key + ",a FROM " + r.table, "SELECT * FROM t_src WHERE " + r.key + "=1",
+					"(SELECT 1,2)", "SELECT 1,2 UNION SELECT 3,4", "SELECT " + strings.Join(rows[0], ",")})
 				shape = "insert-select"
 			}
 		}
@@ -535,17 +683,29 @@ func genC03(g *core.Gen) {
 			case 1:
 				sql += " ON DUPLICATE KEY UPDATE " + r.table + ".b=2, a=3"
 			case 2:
-				if g.Intn(3) == 0 {
-					sql += " ON DUPLICATE KEY UPDATE a=1, " + r.key + "=2"
-					shape = "ondup-shardcol"
+				// an assignment to the sharding column, in every spelling of the column and of the value
+				k := core.Pick(g, []string{r.key, strings.ToUpper(r.key), "`" + r.key + "`", r.table + "." + r.key, r.db + "." + r.table + "." + r.key, "`" + r.table + "`.`" + strings.ToUpper(r.key) + "`", "other." + r.key})
+				v := core.Pick(g, []string{"2", "VALUES(" + r.key + ")", "VALUES(a)", "values(`" + r.key + "`)", "VALUES(" + r.table + "." + r.key + ")", r.key, r.key + "+1", "NULL", "DEFAULT", "'x'", "(SELECT 1)"})
+				as := []string{k + "=" + v}
+				if g.Intn(2) == 0 {
+					as = append(as, "a=1")
 				}
+				if g.Intn(2) == 0 {
+					as = append(as, "b=VALUES(b)")
+				}
+				g.Rand.Shuffle(len(as), func(x, y int) { as[x], as[y] = as[y], as[x] })
+				sql += " ON DUPLICATE KEY UPDATE " + strings.Join(as, ", ")
+				shape = "ondup-shardcol"
+			case 3:
+				// the sharding column only on the right-hand side: harmless
+				sql += " ON DUPLICATE KEY UPDATE a=VALUES(" + r.key + "), b=" + r.key + "+1"
 			}
 		}
 		in, tags, ok := InsLine(r.name, sql, seq)
 		if !ok {
 			continue
 		}
-		tags = append(tags, "rule="+r.name, "mode="+mode, "shape="+shape, fmt.Sprintf("rows=%d", len(rows)))
+		tags = append(tags, "rule="+r.name, "mode="+mode, "shape="+shape, fmt.Sprintf("rows=%d", len(rows)), fmt.Sprintf("odd=%v", odd))
 		g.Emit(in, tags...)
 	}
 }
@@ -561,7 +721,12 @@ func insSeqFromSexp(s core.Sexp) *insSeq {
 	return q
 }
 
-// insEntry canonicalises one rewritten INSERT: table chain, columns, rows.
+// insFlags: what kind of statement it is (REPLACE or INSERT, IGNORE, priority, ON DUPLICATE KEY UPDATE present)
+func insFlags(stmt *ast.InsertStmt) string {
+	return fmt.Sprintf("r%vi%vp%dd%d", core.B(stmt.IsReplace).Atom, core.B(stmt.IgnoreErr).Atom, int(stmt.Priority), len(stmt.OnDuplicate))
+}
+
+// insEntry canonicalises one rewritten INSERT: table chain, columns, rows, kind of statement.
 func insEntry(slice, db, sql string) string {
 	node, err := parser.ParseSQL(sql)
 	if err != nil {
@@ -606,7 +771,7 @@ func insEntry(slice, db, sql string) string {
 			cols[i] = "-"
 		}
 	}
-	return "(" + insIdent(slice).String() + " " + insIdent(db).String() + " (" + strings.Join(chain, " ") + ") (" + strings.Join(cols, " ") + ") (" + strings.Join(rows, " ") + "))"
+	return "(" + insIdent(slice).String() + " " + insIdent(db).String() + " (" + strings.Join(chain, " ") + ") (" + strings.Join(cols, " ") + ") (" + strings.Join(rows, " ") + ") " + insFlags(stmt) + ")"
 }
 
 var insPhyDBs = map[string]string{"db_ks": "db_ks", "db_mycat": "db_mycat_0"}
@@ -655,10 +820,12 @@ func execC03(in core.Sexp) string {
 func init() {
 	core.Register(&core.Property{
 		ID: "C03",
-		Rule: "INSERT / REPLACE / INSERT IGNORE in VALUES form (1–6 rows) and SET form on 15 rule configurations (hash, mod, range, single-table hash, date_year/month/day, linked, four mycat rules, two global tables; three slices); " +
+		Rule: "INSERT / REPLACE (with IGNORE, LOW_PRIORITY, HIGH_PRIORITY, DELAYED, VALUE/VALUES, with and without INTO) in VALUES form (1–6 rows) and SET form on 17 rule configurations (hash, mod, range, single-table hash, date_year/month/day, linked to range and to hash, five mycat rules incl. padding mod, two global tables; three slices); " +
 			"sharding cells are literals of a boundary-rich universe per rule (range edges ±1, beyond the last range, period starts/ends, outside the configured periods, quoted numbers, uint64) mixed with cells the proxy does not evaluate " +
-			"(signed numbers, arithmetic, function calls, NULL, floats, columns, DEFAULT, nextval()); column lists shuffled, with the sharding column missing / twice / upper-case / qualified, ragged rows, ON DUPLICATE KEY, INSERT … SELECT, missing column list; " +
-			"a global sequence (own column or the sharding column; given, nextval(), NULL or omitted; failing backend) in a quarter of the cases. Cell kinds and placements are those /repo's parser and the real rule report. " +
+			"(signed numbers, arithmetic, function calls, NULL, columns, DEFAULT, nextval()) and with literals whose stored value is not what GetValueExprResult gives: hexadecimal, bit, decimal and float literals, TRUE/FALSE, and strings MySQL reads as numbers " +
+			"(leading zeros, white space incl. \\t and \\n escapes, signs, fractions, exponents, 2^63 and 2^64 borders, introducers, adjacent strings), fixed ones and respellings of routable keys; column lists shuffled, with the sharding column missing / twice / upper-case / back-quoted / qualified, ragged rows, " +
+			"ON DUPLICATE KEY UPDATE with and without an assignment to the sharding column (column plain, upper-case, back-quoted, qualified; value literal, VALUES(col), expression, NULL, DEFAULT, sub query; any position), INSERT … SELECT in six shapes, missing column list; " +
+			"a global sequence (own column or the sharding column; given, nextval(), NULL or omitted; failing backend) in a quarter of the cases. Cell kinds, literal values and placements (also of the other spellings of every sharding value, `fti`) are those /repo's parser and the real rule report. " +
 			"non-trivial = statement accepted",
 		Generate: genC03,
 		Exec:     execC03,
@@ -668,6 +835,9 @@ func init() {
 			"/repo's parser is the oracle for the node type of every cell (ValueExpr / NULL / nextval() / other) and restoring a restored cell is the identity",
 			"a planner panic is recovered by SessionExecutor.handleQuery and reaches the client as an error: the oracle treats it as a rejection",
 			"the physical location of table index i (slice, database, table name) is what the rule's layout functions report (their agreement with the configuration is C04/C10); placement functions are C08/C09",
+			"MySQL (strict sql_mode): a string with the syntax of an integer (white space, sign, digits, white space) stored in an integer column becomes that integer; an integer stored in a string column becomes its decimal digits; a string that looksLikeNumber does not accept is refused by an integer column. Fractions and exponents in strings are not modelled on the specification side (the hash rule refuses them)",
+			"calendar rules: the type of the key literal is the type of the column (a date string for DATE/DATETIME, an integer for a unix time), written as the rule documents (YYYY-MM-DD[ hh:mm:ss]); two-digit-year and other MySQL date spellings are not modelled",
+			"a statement naming the sharding column twice is refused by the backend (error 1110) wherever it is sent; sequence values are not negative",
 		},
 	})
 }
